@@ -89,7 +89,7 @@ def gen_index_cases(ctx, maxlen):
 def gen_behaviours(ctx, maxpre, maxacc, simulate=None, seed=0):
     kw = {}
     if simulate:
-        kw = {"simulate": "num=%d" % simulate, "depth": maxpre + maxacc + 3, "seed": seed + 1}
+        kw = {"simulate": "num=%d" % simulate, "depth": maxpre + maxacc + 3, "seed": seed + 1, "workers": 1}
     r = ctx.tlc_ok(
         "SliceLazy",
         lazy_cfg(True, maxpre, maxacc, True, ["TypeOK", "Emit"]),
@@ -109,8 +109,9 @@ def gen_behaviours(ctx, maxpre, maxacc, simulate=None, seed=0):
             out.append({"prov": p[1], "hist": p[2]})
     if not out:
         raise Machinery("SliceLazy printed no behaviours")
-    out.sort(key=lambda b: repr(b))
-    return out
+    if not simulate:
+        out.sort(key=lambda b: repr(b))
+    return out[:simulate] if simulate else out
 
 
 # --------------------------------------------------------------------------- cases
@@ -181,17 +182,25 @@ def build_cases(ctx, rng, thorough, idx_cases, behaviours, sims):
     srcs = [cat_src(e) for e in big]
     for s in range(6 if thorough else 2):
         srcs.append({"t": "planar", "nx": rng.randint(3, 9), "ny": rng.randint(3, 9), "seed": rng.randrange(1 << 30), "holes": [0.0, 0.2][s % 2]})
-    for si, src in enumerate(srcs):
+    file_srcs = []
+    if thorough:
+        for path in ("test/meshfiles/ugrid/outCSne30/outCSne30.ug", "test/meshfiles/ugrid/quad-hexagon/grid.nc"):
+            full = os.path.join(X.hux.REPO, path)
+            if os.path.exists(full) and os.path.getsize(full) > 0:
+                file_srcs.append({"t": "file", "path": path})
+    for si, src in enumerate(srcs + file_srcs):
         geo = X.source_geometry(src)
         n = {"face": len(geo["faces"]), "node": len(geo["lon"]), "edge": len(X.own_edges(geo["faces"], 0))}
         for kind in ("face", "node", "edge"):
             sets = [[rng.randrange(n[kind])], [rng.randrange(n[kind])], list(range(n[kind])), list(range(n[kind]))[::-1]]
             for _ in range(6 if thorough else 2):
-                sets.append(rng.sample(range(n[kind]), rng.randint(2, max(2, n[kind] // 2))))
+                sets.append(rng.sample(range(n[kind]), rng.randint(2, max(2, min(n[kind] // 2, 40 if src["t"] == "file" else 10**6)))))
             for j, idx in enumerate(sets):
                 k += 1
                 form = ["scalar", "npscalar", "list", "array"][j] if j < 4 else FORMS[k % 3]
-                add("idx:%d:%s:%d" % (si, kind, j), src, provs[k % 2], {"t": "idx", "kind": kind, "idx": idx, "form": form}, **({"data": data_spec(k)} if k % 2 == 0 else {}))
+                if src["t"] == "file" and (j in (2, 3) or j > 5) and len(geo["faces"]) > 100:
+                    continue  # large sample file: scalar / singleton / a few random sets only
+                add("idx:%d:%s:%d" % (si, kind, j), src, "file" if src["t"] == "file" else provs[k % 2], {"t": "idx", "kind": kind, "idx": idx, "form": form}, **({"data": data_spec(k)} if k % 2 == 0 else {}))
     # E. histories: behaviours of SliceLazy
     hist_src = [cat_src(catalog.entries(name="cuboctahedron", rot=0, cut=3)[0]), cat_src(catalog.entries(name="cube", rot=0, cut=0)[0]), cat_src(catalog.entries(name="truncated_octahedron", rot=5, cut=2)[0])]
     for tag, bs in (("hist", behaviours), ("sim", sims)):
@@ -219,8 +228,8 @@ def build_cases(ctx, rng, thorough, idx_cases, behaviours, sims):
                 add("latlon:xsec:%s:%d" % (mode, j), ll, provs[j % 2], {"t": "lat", "kind": "face", "pick": j * 3 + 1, "mode": mode}, threads=X.THREADS, data=data_spec(j))
     # G. sources read from an in-memory UGRID dataset that ships its edge table
     cub = catalog.entries(name="cuboctahedron", rot=0, cut=0)[0]
-    for j, prov in enumerate(["ugrid", "ugrid_ec", "ugrid", "ugrid_ec"]):
-        add("ugrid:%s:%d" % (prov, j), cat_src(cub), prov, {"t": "idx", "kind": ["face", "node", "edge", "face"][j], "idx": [[5, 2, 9], [3, 0], [1, 7], [0]][j], "form": "list"}, data=data_spec(j))
+    for j, prov in enumerate(["ugrid", "ugrid_ec", "ugrid_plain", "ugrid", "ugrid_ec", "ugrid_plain"]):
+        add("ugrid:%s:%d" % (prov, j), cat_src(cub), prov, {"t": "idx", "kind": ["face", "node", "edge", "face", "edge", "node"][j], "idx": [[5, 2, 9], [3, 0], [1, 7], [0], [4], [6, 1, 2]][j], "form": "list"}, data=data_spec(j))
     return cases
 
 
@@ -262,13 +271,25 @@ def run(ctx):
     model_checks(ctx, thorough)
     idx_cases = gen_index_cases(ctx, 3 if thorough else 2)
     behaviours = gen_behaviours(ctx, 2 if thorough else 1, 1)
-    if not thorough:
-        # transition cover is kept (every (materialised variable, slice, first access)); thin out by a fixed stride
-        behaviours = behaviours[:: 3]
-    elif len(behaviours) > 9000:
+    if thorough and len(behaviours) > 9000:
         behaviours = behaviours[:: (len(behaviours) // 9000 + 1)]
     sims = gen_behaviours(ctx, 4, 6, simulate=400 if thorough else 60, seed=ctx.seed)
     cases = build_cases(ctx, rng, thorough, idx_cases, behaviours, sims)
+    if not thorough:
+        # quick tier: thin the large families by a fixed stride (deterministic)
+        cap = {"box": 300, "circle": 150, "knn": 100, "xsec": 150, "faces_at": 150, "hist": 450}
+        fam = {}
+        for c in cases:
+            fam.setdefault(c["id"].split(":")[0], []).append(c)
+        cases = []
+        for f, cs in fam.items():
+            if f in cap and len(cs) > cap[f]:
+                step = len(cs) / float(cap[f])
+                cs = [cs[int(k * step)] for k in range(cap[f])]
+            cases += cs
+    only = os.environ.get("C09_ONLY")  # development aid: restrict the replay to some case families
+    if only:
+        cases = [c for c in cases if c["id"].split(":")[0] in only.split(",")]
     ids = [c["id"] for c in cases]
     if len(set(ids)) != len(ids):
         raise Machinery("duplicate case ids")
